@@ -183,10 +183,11 @@ def tasks_for(tier, seed):
         for m in rs:
             fm = full_map(m)
             val.append({"kind": "validate", "domain_text": text, "renaming": fm, "label": f"{label} renaming {m}"})
-        for m in (rs if tier == "thorough" else rng.sample(rs, min(3, len(rs)))):
+        # three parameters: every picked renaming is also executed (the rotations are the point of these programs)
+        for m in (rs if tier == "thorough" or len(params) >= 3 else rng.sample(rs, min(3, len(rs)))):
             fm = full_map(m)
             for mode in ("applicable", "apply"):
-                for args in G.arg_tuples(params, const, limit=2 if tier == "quick" else 3):
+                for args in G.arg_tuples(params, const, limit=(2 if tier == "quick" else 3) if len(params) < 3 else 5):
                     beh.append(dict(domain_text=text, action="act", args=args, objects=dict(G.OBJECTS), mode=mode,
                                     label=f"[renamed {m}] {label}", cap=8 if tier == "quick" else 11,
                                     lib_transform="change_signature", renaming=fm, max_paths=1500 if tier == "quick" else 20000))
